@@ -564,11 +564,11 @@ def mut_worker(job):
 # ---- function-call family (spec/ArgClass.tla) ----------------------------------------------------
 
 ARG_CLASSES = ["attr", "elem", "untyped_bad", "untyped_ok", "empty", "wrong_str", "wrong_num", "wrong_dur",
-               "seq", "func", "map", "array", "bigneg", "baduri", "nul"]
+               "wrong_numstr", "seq", "func", "map", "array", "bigneg", "baduri", "nul"]
 # binding table: item type -> (an expression of that type, a valid lexical form of that type)
 TYPE_TABLE = {
     'xs:string': ("'a'", 'a'), 'xs:integer': ('1', '1'), 'xs:double': ('1.5e0', '1.5'), 'xs:decimal': ('1.5', '1.5'),
-    'xs:float': ("xs:float('1.5')", '1.5'), 'xs:numeric': ('1.5', '1.5'), 'xs:boolean': ('true()', 'true'),
+    'xs:float': ("xs:float('1.5')", '1.5'), 'xs:numeric': ('15', '15'), 'xs:boolean': ('true()', 'true'),
     'xs:date': ("xs:date('2000-01-01')", '2000-01-01'), 'xs:dateTime': ("xs:dateTime('2000-01-01T10:00:00')", '2000-01-01T10:00:00'),
     'xs:dateTimeStamp': ("xs:dateTime('2000-01-01T10:00:00Z')", '2000-01-01T10:00:00Z'),
     'xs:time': ("xs:time('10:00:00')", '10:00:00'), 'xs:duration': ("xs:duration('P1D')", 'P1D'),
@@ -587,7 +587,7 @@ for _t in ('long', 'int', 'short', 'byte', 'nonNegativeInteger', 'positiveIntege
 for _t in ('nonPositiveInteger', 'negativeInteger'):
     TYPE_TABLE['xs:' + _t] = ('-1', '-1')
 CLASS_TEXT = {'attr': '/a/@x', 'elem': '/a/b', 'untyped_bad': "xs:untypedAtomic('x')", 'empty': '()', 'wrong_str': "'s'",
-              'wrong_num': '1', 'wrong_dur': "xs:dayTimeDuration('PT1S')", 'func': 'fn:abs#1', 'map': 'map{}', 'array': '[]',
+              'wrong_num': '1', 'wrong_numstr': "'1'", 'wrong_dur': "xs:dayTimeDuration('PT1S')", 'func': 'fn:abs#1', 'map': 'map{}', 'array': '[]',
               'bigneg': '-1000000000000', 'baduri': "'http://['", 'nul': "'\x00'"}
 
 
@@ -949,9 +949,10 @@ def run(chk: core.Check) -> None:
     os.makedirs(gen_a, exist_ok=True)
     with open(os.path.join(gen_a, 'C03ArgPlan.tla'), 'w') as fh:
         fh.write('---- MODULE C03ArgPlan ----\n(* generated: arities of the exported signatures (binding C) *)\n'
-                 'EXTENDS Naturals, Sequences\nCONSTANTS Classes, MaxDev\nVARIABLES sig, args\n')
+                 'EXTENDS Naturals, Sequences, TLC\nCONSTANTS Classes, MaxDev\nVARIABLES sig, args\n')
         fh.write('GenArity == <<' + ', '.join(str(len(p)) for _, p in sigs) + '>>\n')
-        fh.write('INSTANCE ArgClass WITH Arity <- GenArity\n====\n')
+        fh.write('INSTANCE ArgClass WITH Arity <- GenArity\n')
+        fh.write('ASSUME PrintPlanSize == PrintT(<<"plan_size_1", PlanSize1>>)\n====\n')
     wd = os.path.join(chk.scratch, 'args')
     dot = os.path.join(wd, 'g.dot')
     cfg = tla.cfg_text(dict(Classes=set(ARG_CLASSES), MaxDev=tier['max_dev']), invariants=['TypeOK', 'Bounded'])
@@ -1061,8 +1062,12 @@ def run(chk: core.Check) -> None:
                 return
             sid = dst
 
+    old_limit = sys.getrecursionlimit()
     sys.setrecursionlimit(10000)
-    walk(init, [])
+    try:
+        walk(init, [])
+    finally:
+        sys.setrecursionlimit(old_limit)     # the forked workers must judge RecursionError under the default limit
     histories = [h for h in histories if h]
     if len(histories) < 100:
         raise tla.MachineryError(f'only {len(histories)} histories')
